@@ -31,6 +31,17 @@ Theorem C16_fresh_across_history :
   nth a dp [] <> nth c dq [].
 Proof. exact @distinct_ops_distinct_blocks. Qed.
 
+(* ... the index half of it needs no premise about the source at all *)
+Theorem C16_disjoint_indices_across_history :
+  forall A R i (ops : list (list nat * (list bytes -> result A))) p q sp bp sq bq dp a c,
+  p < q -> nth_error ops p = Some (sp, bp) -> nth_error ops q = Some (sq, bq) ->
+  draw_all R (start_of R i ops p) sp = Some dp -> a < length sp ->
+  start_of R i ops p + a < start_of R i ops q + c.
+Proof. exact @distinct_ops_distinct_indices. Qed.
+(* ... and the premise [fresh R] has a model *)
+Theorem C16_fresh_satisfiable : exists R, fresh R.
+Proof. exists counter_rng. exact counter_rng_fresh. Qed.
+
 (* the nonce / salt fields of the outputs ARE the drawn blocks *)
 Theorem C16_local_nonce_is_draw : forall (P : lparams) key enc n0 m f a p,
   length n0 = 32 -> lp_synth P = (fun n _ => n) ->
@@ -53,3 +64,5 @@ Print Assumptions C16_fresh_across_history.
 Print Assumptions C16_local_nonce_is_draw.
 Print Assumptions C16_pie_nonce_is_draw.
 Print Assumptions C16_pbkw_salt_nonce_are_draws.
+Print Assumptions C16_disjoint_indices_across_history.
+Print Assumptions C16_fresh_satisfiable.
